@@ -58,7 +58,18 @@ class Source(Stream):
         if self.stopped:
             self.stopped = False
             self.started = True
-            self.loop.add_callback(self.run)
+            if not getattr(self, '_polling', False):
+                self._polling = True
+                self.loop.add_callback(self._run_one_at_a_time)
+
+    async def _run_one_at_a_time(self):
+        # a loop that is still suspended picks up again when restarted
+        try:
+            result = self.run()
+            if isawaitable(result):
+                await result
+        finally:
+            self._polling = False
 
     async def run(self):
         """This coroutine will be invoked by start() and emit all data
